@@ -24,6 +24,7 @@
 }
 @*/
 use super::{ast, error, ExecutionResult, OpenFiles, ProcessGroupPolicy, VecDeque};
+use std::io::Write as _;
 use crate::vk_prelude::*;
 
 // ---- duck-typed environment (local names shadow the real ones inside this module)
@@ -34,6 +35,9 @@ pub struct MockOpenFiles { pub stdin: Option<End>, pub stdout: Option<End> }
 impl MockOpenFiles { pub fn set_fd(&mut self, fd: i32, e: End) { if fd == OpenFiles::STDIN_FD { self.stdin = Some(e); } else if fd == OpenFiles::STDOUT_FD { self.stdout = Some(e); } } }
 #[derive(Clone, Default)]
 pub struct ExecutionParameters { pub open_files: MockOpenFiles, pub process_group_policy: ProcessGroupPolicy }
+pub struct NullSink;
+impl std::io::Write for NullSink { fn write(&mut self, b: &[u8]) -> std::io::Result<usize> { Ok(b.len()) } fn flush(&mut self) -> std::io::Result<()> { Ok(()) } fn write_fmt(&mut self, _a: std::fmt::Arguments<'_>) -> std::io::Result<()> { Ok(()) } }
+impl ExecutionParameters { pub fn stderr(&self, _s: &commands::ShellForCommand<'_>) -> NullSink { NullSink } }
 pub struct Opts { pub run_last_pipeline_cmd_in_current_shell: bool, pub enable_job_control: bool, pub do_not_execute_commands: bool }
 pub struct Shell { pub opts: Opts, pub clones: u8 }
 impl Shell {
@@ -57,9 +61,11 @@ pub struct WOracle {
     pub pipes: u8, pub stages: usize, pub t: u8,
     pub ins: [Option<End>; 4], pub outs: [Option<End>; 4], pub in_parent: [bool; 4], pub same_pg: [bool; 4], pub pgid_seen: [Option<i32>; 4],
     pub started_at: [u8; 4], pub completed_inline_at: [u8; 4],
+    // what a stage that completes inside the call hands back: status and request (0 none, 1 exit, 2 return, 3 break); builtin[i]: the simple stage is a builtin (completes in the call)
+    pub code: [u8; 4], pub flow: [u8; 4], pub builtin: [bool; 4],
 }
 impl WOracle {
-    pub fn new() -> Self { WOracle { pipes: 0, stages: 0, t: 0, ins: [None; 4], outs: [None; 4], in_parent: [false; 4], same_pg: [false; 4], pgid_seen: [None; 4], started_at: [0; 4], completed_inline_at: [0; 4] } }
+    pub fn new() -> Self { WOracle { pipes: 0, stages: 0, t: 0, ins: [None; 4], outs: [None; 4], in_parent: [false; 4], same_pg: [false; 4], pgid_seen: [None; 4], started_at: [0; 4], completed_inline_at: [0; 4], code: [0; 4], flow: [0; 4], builtin: [false; 4] } }
     fn pipe(&mut self) -> Result<(End, End), error::Error> { let id = self.pipes; self.pipes += 1; Ok((End { pipe: id, write: false }, End { pipe: id, write: true })) }
     fn record(&mut self, ctx: &PipelineExecutionContext<'_>, p: &ExecutionParameters) -> usize {
         let i = self.stages; kani::assume(i < 4); self.stages += 1; self.t += 1;
@@ -72,15 +78,21 @@ impl WOracle {
     }
     /// a simple command: a process (or task) is started and the call returns while it runs
     fn start_simple(&mut self, ctx: PipelineExecutionContext<'_>, p: ExecutionParameters) -> Result<ExecutionSpawnResult, error::Error> {
-        self.record(&ctx, &p);
+        let i = self.record(&ctx, &p);
+        if self.builtin[i] { return Ok(ExecutionSpawnResult::Completed(self.result_of(i))); }
         Ok(ExecutionSpawnResult::StartedProcess(Child))
     }
     fn redirect(&mut self) -> Result<(), error::Error> { Ok(()) }
+    fn result_of(&self, i: usize) -> ExecutionResult {
+        let mut r = ExecutionResult::new(self.code[i]);
+        r.next_control_flow = match self.flow[i] { 1 => crate::ExecutionControlFlow::ExitShell, 2 => crate::ExecutionControlFlow::ReturnFromFunctionOrScript, 3 => crate::ExecutionControlFlow::BreakLoop { levels: 0 }, _ => crate::ExecutionControlFlow::Normal };
+        r
+    }
     /// a compound command / function definition executed inline: when this returns the stage has run to completion
     fn run_inline(&mut self, ctx: &mut PipelineExecutionContext<'_>, p: &ExecutionParameters) -> Result<ExecutionResult, error::Error> {
         let i = self.record(ctx, p);
         self.t += 1; self.completed_inline_at[i] = self.t;
-        Ok(ExecutionResult::success())
+        Ok(self.result_of(i))
     }
 }
 
@@ -106,6 +118,8 @@ fn wiring(n: usize, allow_inline_writer: bool) {
     let mut shell = Shell { opts: Opts { run_last_pipeline_cmd_in_current_shell: kani::any(), enable_job_control: kani::any(), do_not_execute_commands: false }, clones: 0 };
     let params = ExecutionParameters::default();
     let mut o = WOracle::new();
+    o.code = kani::any(); o.flow = kani::any(); o.builtin = kani::any();
+    kani::assume(o.flow[0] < 4 && o.flow[1] < 4 && o.flow[2] < 4 && o.flow[3] < 4);
     let r = vk_ok(t_spawn(&p, &mut shell, &params, &mut o));
     let lastpipe = shell.opts.run_last_pipeline_cmd_in_current_shell && !shell.opts.enable_job_control;
     kani::cover!(lastpipe, "last_stage_in_parent_shell");
